@@ -103,15 +103,26 @@ QXmppTask<void> QXmppAtmManager::makeTrustDecisions(const QString &encryption, c
             }
         }
 
+        // Keys that are distrusted once more: their trust level does not change and no trust
+        // message is sent for them, but the trust decisions their holders have sent in the
+        // meantime are discarded as by the first distrust (and as distrust() does for a trust
+        // message that repeats a distrust).
+        QMultiHash<QString, QByteArray> keysBeingDistrustedAgain;
+
         for (const auto &keyId : keyIdsForDistrusting) {
             if (!manuallyDistrustedKeys.contains(keyOwnerJid, keyId)) {
                 modifiedManuallyDistrustedKeys.append(keyId);
+            } else {
+                keysBeingDistrustedAgain.insert(keyOwnerJid, keyId);
             }
         }
 
         if (modifiedAuthenticatedKeys.isEmpty() && modifiedManuallyDistrustedKeys.isEmpty()) {
             // Skip further processing if there are no changes.
-            promise.finish();
+            auto future = distrust(encryption, keysBeingDistrustedAgain);
+            future.then(this, [=]() mutable {
+                promise.finish();
+            });
         } else {
             keyOwner.setTrustedKeys(modifiedAuthenticatedKeys);
             keyOwner.setDistrustedKeys(modifiedManuallyDistrustedKeys);
@@ -126,6 +137,7 @@ QXmppTask<void> QXmppAtmManager::makeTrustDecisions(const QString &encryption, c
             for (const auto &key : std::as_const(modifiedManuallyDistrustedKeys)) {
                 keysBeingDistrusted.insert(keyOwnerJid, key);
             }
+            keysBeingDistrusted.unite(keysBeingDistrustedAgain);
 
             // Create a key owner for authenticated and distrusted keys of own
             // endpoints.
